@@ -111,12 +111,13 @@ def prop_differs(p, o, sxp):
 
 
 def values_differ(values):
+    from .evalcorr import atoms_defined
+
     def f(p, o, sxp):
         for x in values:
-            try:
-                a = p(x)
-            except Exception:  # noqa: BLE001  original undefined here: outside the property
+            if not atoms_defined(p, x):  # outside the property: some atom of the original is undefined here
                 continue
+            a = p(x)
             try:
                 b = o(x)
             except Exception as e:  # noqa: BLE001
